@@ -15,11 +15,14 @@ Record case := {
 }.
 
 (* ---- decoding of the primitive-integer case format ---- *)
-(* address: 5 ints  family, w3, w2, w1, w0 (32-bit words, most significant first) *)
+(* address: 6 ints  zone identity (0 = none), family, w3, w2, w1, w0 (32-bit
+   words, most significant first).  The limiter key is the whole netip.Addr:
+   two addresses that differ only in the zone are different keys. *)
 Fixpoint dec_addrs (l : list Uint63.int) : list N :=
   match l with
-  | f :: w3 :: w2 :: w1 :: w0 :: t =>
-      (n_of_int f * 2^128 + n_of_int w3 * 2^96 + n_of_int w2 * 2^64 + n_of_int w1 * 2^32 + n_of_int w0)
+  | z :: f :: w3 :: w2 :: w1 :: w0 :: t =>
+      (n_of_int z * 2^136 + n_of_int f * 2^128 + n_of_int w3 * 2^96 + n_of_int w2 * 2^64
+       + n_of_int w1 * 2^32 + n_of_int w0)
       :: dec_addrs t
   | _ => []
   end.
